@@ -31,7 +31,7 @@ LEAN = {"module": "Pygom.Props.C06",
                      "Pygom.C06.unrollState_target", "Pygom.C06.unrollState_other", "Pygom.C06.earlier_outputs_unaffected",
                      "Pygom.C06.atStored_reproduces", "Pygom.C06.output_depends_on_held_values_only"]}
 BUDGET = {"quick": {"cases": 1000, "broadcast": 50, "per_batch": 40, "history": 704},
-          "thorough": {"cases": 40000, "broadcast": 600, "per_batch": 60, "history": 7040}}
+          "thorough": {"cases": 32000, "broadcast": 600, "per_batch": 60, "history": 7040}}
 RULE = ("random bounded models (gen_model, autonomous, 2-4 states, 1-4 parameters, short horizons) and catalogue models "
         "(SIR, SEIR, Lotka_Volterra, FitzHugh); theta, x0, uniform / non-uniform grids of 3-7 observation times; 1-3 observed "
         "states in random order; five loss classes with default / scalar / per-state / per-observation / full-matrix spread; "
